@@ -746,7 +746,11 @@ _c16_quick = \
      run("hm", "set_hp", c=2, solo=_SOLO, opt={"ops": 0x7, "keys": 1, "prefill": 1}), run("hm", "map_b1_lfrc", c=2, solo=_SOLO, opt={"ops": 0x23, "keys": 1, "prefill": 1}), run("hm", "iset_hp", c=1, solo=_SOLO, opt={"keys": 2}),
      run("hm", "imap_b1_memo_scr_hp", c=1, solo=_SOLO, opt={"keys": 2, "m": 1}),
      run("vy", "map_st_s1_hp", c=1, solo=_SOLO, opt={"m": 1, "keys": 5, "prefill": 31, "cap": 128, "ops": 0x7}), run("vy", "map_st_s1_hp", c=0, solo=_SOLO, opt={"T": 1, "m": 3, "keys": 5, "cap": 128, "prefill": 15, "ops": 0x3f}),
-     run("vy", "map_tm_i1_hp", c=1, solo=_SOLO, opt={"m": 1, "keys": 5, "prefill": 31, "cap": 128, "ops": 0x7})]
+     run("vy", "map_tm_i1_hp", c=1, solo=_SOLO, opt={"m": 1, "keys": 5, "prefill": 31, "cap": 128, "ops": 0x7}),
+     # weak operations reached through the policy-dispatched entry points, three threads, guard snapshots, two thieves, iterators over two buckets
+     run("bounded", "vyukov_dw", c=2, solo=_SOLO, opt={"cap": 2}, weight=0.7), run("bounded", "vyukov_api", c=1, solo=_SOLO, opt={"cap": 2}, weight=0.4),
+     run("bounded", "vyukov", c=2, solo=_SOLO, opt={"cap": 2, "T": 3, "m": 1, "prefill": 1}, weight=0.7), run("guards", "snap_hp", c=2, solo=_SOLO, weight=0.5),
+     run("deque", "grow2", c=1, solo=_SOLO, opt={"thieves": 2, "s": 1}, weight=0.5), run("hm", "imap_b2_31_hp", c=1, solo=_SOLO, opt={"fixed": 2, "nocopy": 1}, weight=0.7)]
 _c16_thorough = \
     [run("queues", "%s_%s" % (q, r), c=2, solo=_SOLO, weight=4 if r == "stamp" else 1) for q in ["ms", "ram_e1p1", "ram_e2p0", "nik_e1p1", "nik_e2p0"] for r in RECL_ALL] + \
     [run("queues", "%s_lfrc" % q, c=3, solo=_SOLO, opt={"prefill": 0}, weight=6) for q in ["ms", "ram_e1p1", "nik_e1p1"]] + \
